@@ -5,7 +5,7 @@ import importlib
 
 from .core import (ite, truth, sym_and, sym_or, sym_not, sym_implies, is_sym, SymInt, SymBool, EngineError,  # noqa
                    AssumeFailed, PathAbort)
-from .seq import mk_seq, items_of, SymSeq, SymDict, seq_eq  # noqa
+from .seq import mk_seq, items_of, SymSeq, SymDict, SymList, seq_eq  # noqa
 from .runner import Ob  # noqa
 
 
